@@ -3,6 +3,7 @@ package engines
 import (
 	"fmt"
 	"strings"
+	"time"
 
 	"github.com/ozanh/ugo"
 	"verif/sim"
@@ -33,10 +34,12 @@ const (
 	c06CtxStackEdge
 	c06CtxWideCalls
 	c06CtxStringsMap
+	c06CtxOverflowCaughtCatch
+	c06CtxOverflowCaughtFinally
 	c06NumCtx
 )
 
-var c06CtxNames = []string{"plain", "callee", "child-vm", "child-of-child", "finally-pending-return", "catch", "frame-edge", "stack-edge", "wide-calls", "strings.Map-callback"}
+var c06CtxNames = []string{"plain", "callee", "child-vm", "child-of-child", "finally-pending-return", "catch", "frame-edge", "stack-edge", "wide-calls", "strings.Map-callback", "frame-overflow-caught-in-frame", "frame-overflow-through-finally"}
 
 // sites: expression sites can sit inside wide literals; statement sites cannot
 var c06Sites = []struct {
@@ -57,6 +60,8 @@ var c06Sites = []struct {
 	{"iterate", "iterate", false, "for k, v in o%d { log(k, v) }"},
 	{"next", "next", false, "for k, v in o%d { log(k, v) }"},
 	{"value", "value", false, "for k, v in o%d { log(k, v) }"},
+	{"syncmap-string", "string", true, "string(sm%d)"},
+	{"syncmap-equal", "equal", true, "(sm%[1]d == sm%[1]db)"},
 	{"vm-rem-zero", "-", true, "(7 %% (op(%d) * 0))"}, // a Go panic raised by a VM operator (integer remainder by zero)
 }
 
@@ -70,7 +75,7 @@ func c06Script(probes []c06Probe) string {
 		if site.expr {
 			stmt = "log(" + text + ")"
 		}
-		fmt.Fprintf(&sb, "o%d := obj(%d)\n", k, k)
+		fmt.Fprintf(&sb, "o%[1]d := obj(%[1]d)\nsm%[1]d := syncmap(%[1]d)\nsm%[1]db := syncmap(%[1]d)\n", k)
 		body := ""
 		switch p.ctx {
 		case c06CtxPlain:
@@ -106,10 +111,19 @@ func c06Script(probes []c06Probe) string {
 				inner = "h" + fmt.Sprint(k) + "(" + args + inner + ")"
 			}
 			body = fmt.Sprintf("\th%d := func(...a) { return len(a) }\n\tlog(%s)\n", k, inner)
+		case c06CtxOverflowCaughtCatch:
+			// unbounded recursion whose every frame catches: the frame limit strikes in the deepest frame
+			body = fmt.Sprintf("\tvar r%[1]d\n\tr%[1]d = func() {\n\t\ttry {\n\t\t\treturn r%[1]d() + 1\n\t\t} catch {\n\t\t\treturn 0\n\t\t}\n\t}\n\tlog(\"r\", r%[1]d() > 0)\n\t%[2]s\n", k, stmt)
+		case c06CtxOverflowCaughtFinally:
+			body = fmt.Sprintf("\tn%[1]d := 0\n\tvar r%[1]d\n\tr%[1]d = func() {\n\t\ttry {\n\t\t\treturn r%[1]d() + 1\n\t\t} finally {\n\t\t\tn%[1]d++\n\t\t}\n\t}\n\ttry {\n\t\tlog(\"r\", r%[1]d())\n\t} catch {\n\t\tlog(\"of\", n%[1]d > 0)\n\t}\n\t%[2]s\n", k, stmt)
 		case c06CtxStringsMap:
 			body = fmt.Sprintf("\tlog(import(\"strings\").Map(func(c) {\n\t\t%s\n\t\treturn c\n\t}, \"ab\"))\n", stmt)
 		}
 		fmt.Fprintf(&sb, "try {\n\tlog(\"b%[1]d\")\n%[2]s\tlog(\"a%[1]d\")\n} catch e%[1]d {\n\tlog(\"c%[1]d\", isError(e%[1]d))\n} finally {\n\tlog(\"f%[1]d\")\n}\n", k, body)
+	}
+	for k := range probes {
+		// a later write to the same sync map (blocks forever if a recovered panic left its lock held)
+		fmt.Fprintf(&sb, "sm%[1]d.w = %[1]d\nsm%[1]db.w = %[1]d\n", k)
 	}
 	sb.WriteString("return \"end\"\n")
 	return sb.String()
@@ -117,6 +131,10 @@ func c06Script(probes []c06Probe) string {
 
 const c06Fixed = sim.Prelude + "t := 0\nfor i := 0; i < 10; i++ { t += i }\nf := func(a, ...b) { return a + len(b) }\ntry { throw \"z\" } catch e { t += 1 } finally { t += 2 }\nreturn [t, f(1, 2, 3), call(f, 5)]\n"
 const c06FixedWant = "value=[i:48,i:3,i:5] hist=[]"
+
+// an uncaught error in the main function: a handler left behind by the faulted run would intercept it
+const c06Fixed2 = sim.Prelude + "x := 1\nvar f\nf = func(n) { if n == 0 { return [][3] }; return f(n - 1) + 1 }\ny := f(2)\nreturn [x, y]\n"
+const c06Fixed2Want = "error=error(IndexOutOfBoundsError:\"3\") hist=[]"
 
 func c06Run(rc *sim.RunCtx) {
 	t := rc.T
@@ -136,7 +154,7 @@ func c06Run(rc *sim.RunCtx) {
 		case c06CtxFrameEdge:
 			p.depth = 1000 + t.Draw(30)
 		case c06CtxStackEdge:
-			p.depth = 1990 + t.Draw(50)
+			p.depth = 1990 + t.Draw(70)
 		case c06CtxWideCalls:
 			p.depth = 1 + t.Draw(8)
 		}
@@ -186,6 +204,7 @@ func c06Run(rc *sim.RunCtx) {
 		return
 	}
 	fixedBC := mustCompile(c06Fixed, mm, false)
+	fixed2BC := mustCompile(c06Fixed2, mm, false)
 
 	pool := &sim.SimPool{T: t}
 	restorePool := pool.Install()
@@ -198,7 +217,11 @@ func c06Run(rc *sim.RunCtx) {
 		firedObj []sim.ObjFault
 		steps    int64
 	}
+	hung := false
 	run := func(vm *ugo.VM, b *ugo.Bytecode, ws *sim.WorldSpec, noFaults bool, count bool) (res result) {
+		if hung {
+			return result{out: sim.Outcome{Kind: "hang", Value: "not run: an earlier run of this case hangs"}}
+		}
 		w := sim.NewWorld(ws, nil)
 		if count {
 			w.RC = rc
@@ -214,7 +237,20 @@ func c06Run(rc *sim.RunCtx) {
 			}
 			res.firedOps, res.firedObj, res.steps = w.Fired, w.FiredObj, sc.Steps
 		}()
-		ret, err := vm.Run(w.Globals)
+		var ret ugo.Object
+		var err error
+		var inner any
+		if !sim.Watchdog(20*time.Second, func() {
+			defer func() { inner = recover() }()
+			ret, err = vm.Run(w.Globals)
+		}) {
+			hung = true
+			res.out = sim.Outcome{Kind: "hang", Value: "Run neither returned nor can be aborted", Hist: append([]string(nil), w.Hist...)}
+			return
+		}
+		if inner != nil {
+			panic(inner)
+		}
 		res.out = sim.MakeOutcome(ret, err, w.Hist)
 		return
 	}
@@ -277,6 +313,13 @@ func c06Run(rc *sim.RunCtx) {
 		firstCtx = c06CtxNames[probes[faulted.firedObj[0].Obj].ctx] + "/" + faulted.firedObj[0].Method
 	}
 
+	// a run that blocks forever returns neither a value nor an error
+	if hung {
+		rc.Fatal = true
+		rc.Decoded = decoded()
+		rc.Fail("run-hangs", "hang:"+firstCtx, "a run of this case blocked for more than 20 s without executing instructions (clean=%s faulted=%s twin=%s)\nscript:\n%s", clean.out.Kind, faulted.out.Kind, twin.out.Kind, truncateStr(src, 3000))
+		return
+	}
 	// oracle 1: nothing escapes
 	if faulted.escaped != "" {
 		rc.Decoded = decoded()
@@ -327,18 +370,37 @@ func c06Run(rc *sim.RunCtx) {
 		}
 	}
 	// oracle 3: the VM runs further scripts correctly
+	// straight after the faulted run (no Clear), and again after the other follow-ups
+	for round, bcs := range []struct {
+		bc   *ugo.Bytecode
+		want string
+	}{{fixed2BC, c06Fixed2Want}, {fixedBC, c06FixedWant}, {fixed2BC, c06Fixed2Want}} {
+		vm.SetBytecode(bcs.bc)
+		fx := run(vm, bcs.bc, &sim.WorldSpec{Name: "w"}, true, false)
+		if hung {
+			rc.Fatal = true
+			rc.Decoded = decoded()
+			rc.Fail("run-hangs", "followup-hangs:"+firstCtx, "after the faulted run the VM did not finish fixed script %d within 20 s (no instruction executes: the step cap cannot end it)\nscript of the faulted run:\n%s", round, truncateStr(src, 3000))
+			return
+		}
+		if fx.out.String() != bcs.want {
+			rc.Decoded = decoded()
+			rc.Fail("vm-unusable-after-panic", "fixed-script-differs:"+firstCtx, "after the faulted run the VM ran fixed script %d to %s %s, want %s", round, fx.out, fx.escaped, bcs.want)
+			return
+		}
+	}
+	vm.SetBytecode(bc)
 	vm.Clear()
 	again := run(vm, bc, spec, true, false)
+	if hung {
+		rc.Fatal = true
+		rc.Decoded = decoded()
+		rc.Fail("run-hangs", "followup-hangs:"+firstCtx, "after the faulted run and Clear the VM did not finish the fault-free script within 20 s")
+		return
+	}
 	if !again.out.Equal(clean.out) || again.escaped != "" {
 		rc.Decoded = decoded()
 		rc.Fail("vm-unusable-after-panic", "followup-differs:"+firstCtx, "after the faulted run and Clear, the fault-free run differs from a new VM\n new VM:  %s\n used VM: %s %s", clean.out, again.out, again.escaped)
-		return
-	}
-	vm.SetBytecode(fixedBC)
-	fx := run(vm, fixedBC, &sim.WorldSpec{Name: "w"}, true, false)
-	if fx.out.String() != c06FixedWant {
-		rc.Decoded = decoded()
-		rc.Fail("vm-unusable-after-panic", "fixed-script-differs:"+firstCtx, "after the faulted run the VM ran the fixed script to %s %s, want %s", fx.out, fx.escaped, c06FixedWant)
 	}
 }
 
